@@ -28,6 +28,7 @@ EXPLANATION = (
     "extension call; (R03.4) protoclusters are dropped only in the function that reads rule.superiors. "
     "These are necessary conditions of C03; maximality/exactness of chains, hull minimality and clipping values "
     "quantify over layouts and are not decided."
+    ' R03.4 also: extenders grow cores before the uniting merge runs (grown afterwards, two cores of one rule can overlap).'
 )
 UNDECIDED = [
     "maximality and exactness of the cutoff chains for all gene layouts",
